@@ -155,7 +155,11 @@ class BaseNode(Node):
             self.set_value(node.value_raw)
         # copy value type modify values and units
         value = self.value.copy()
-        value.value = self.cast_value(node.value_raw)
+        if self.keyword=='str' and not self.dimension and isinstance(node.value_raw, str) and node.value_raw=='' \
+           and not (node.value_ref or node.value_fn or node.value_expr):
+            value.value = ''    # an empty string literal is a value, too
+        else:
+            value.value = self.cast_value(node.value_raw)
         if value.value is None:
             # assigning 'none': the node stays defined, with an empty value
             self.value = value
